@@ -190,7 +190,7 @@ Proof.
   - rewrite A1, A2. reflexivity.
 Qed.
 
-(* ---------------------------------------------------------------- the unguarded region is refuted *)
+(* ---------------------------------------------------------------- documented: no load is emitted for a pending object *)
 (* parent 1 exists; a pending child with pid = 1: its lazy load returns nothing, after a flush it returns
    the parent.  A pending parent: its collection load returns nothing, after a flush the re-parented child. *)
 Definition wit_lazy : st := mkSt [] [1%N] [mkC 1 Pend 10 1 false] [] 2 2 true false.
